@@ -1,4 +1,6 @@
 import BddVerif.Props.C04
+import BddVerif.Lemmas.AlgoEqApply
+import BddVerif.Lemmas.AlgoEqTernary
 #print axioms B.Props.C04.fused2_spec
 #print axioms B.Props.C04.fused2_operand
 #print axioms B.Props.C04.and_consistent
@@ -11,3 +13,9 @@ import BddVerif.Props.C04
 #print axioms B.Props.C04.fused3_eq_separate
 #print axioms B.Props.C04.flip_bounds3
 #print axioms B.Props.C04.flip_bounds3_panic
+#print axioms B.apply_with_flip_eq_canon
+#print axioms B.Bdd_fused_binary_flip_op_eq_model_driver
+#print axioms B.apply_with_flip_panics_flip
+#print axioms B.ternary_apply_eq_canon
+#print axioms B.Bdd_fused_ternary_flip_op_eq_model_driver
+#print axioms B.ternary_apply_panics_flip
